@@ -15,7 +15,13 @@ template <class tarray>
 auto beta(const scalar_t x0, const scalar_t x1, const scalar_t x2, const tarray& r1, const tarray& rx,
           const scalar_t threshold)
 {
-    return (rx - r1 * threshold) / (x2 + x0 * threshold * threshold - 2 * x1 * threshold);
+    // NB: sum((x - threshold)^2) from the accumulated moments is rounding noise when all the values are (numerically)
+    //     at the threshold: the slope cannot be estimated from these, so no hinge is fitted on this side.
+    const auto denominator = x2 + x0 * threshold * threshold - 2 * x1 * threshold;
+    const auto magnitude   = x2 + x0 * threshold * threshold + 2 * std::fabs(x1 * threshold);
+    const auto precision   = 1e+3 * std::numeric_limits<scalar_t>::epsilon();
+
+    return (rx - r1 * threshold) * ((denominator > precision * magnitude) ? (1.0 / denominator) : 0.0);
 }
 
 template <class tarray, class tbarray>
